@@ -222,7 +222,7 @@ pub fn c10() -> i32 {
             scns
         };
         let n = scns.len();
-        let cfg = ExploreCfg { k: Some(0), wall: Duration::from_secs(if t { 1800 } else { 40 }), ..Default::default() };
+        let cfg = ExploreCfg { k: Some(0), wall: Duration::from_secs(if t { 1800 } else { 40 }), variants: crate::explore::NET_MENU, variant_every: if t { 1 } else { 3 }, ..Default::default() };
         let out = explore(&scns, &cfg, &judge);
         rep.absorb("every moment of death x every split of the last m packets between the survivors", out, &props, json!({"k": 0, "scenarios": n}));
     }
